@@ -8,7 +8,7 @@ BASELINE = "cd /repo && /venv/bin/python -m pytest -ra -q -p no:cacheprovider --
 
 CHECKS = {
     'C01': dict(
-        text='Lean: Spec.PyCore gives a first-order core of Python (ints, bools, strings, None; assignment, if, while/else, break/continue, '
+        text='Lean: Spec.PyCore gives a first-order core of Python (ints, bools, strings, None; assignment, if, while/else, for-in-range/else, break/continue, '
              'try/except/else/finally, print, assert, raise, global, calls of module-level functions) a fuel-indexed definitional semantics whose observable is '
              'the printed lines, how the run ends and the final globals. Proved for every module, nesting depth and fuel, through loops '
              'and calls (strong induction on fuel, mutual structural induction on statements): remove_pass, remove_literal_statements '
